@@ -37,7 +37,7 @@ var arithTable = map[string]arithRef{
 	"MinusOp":      {"-", false, false},
 	"MultOp":       {"*", false, true},
 	"DivOp":        {"/", false, false},
-	"IntDivOp":     {"/", true, false},
+	"IntDivOp":     {"div", false, false},
 	"ModOp":        {"%", false, false},
 	"BitAndOp":     {"&", true, true},
 	"BitOrOp":      {"|", true, true},
@@ -58,7 +58,7 @@ func storedInto(p *Path, cell *Term) *Term {
 }
 
 func ruleC02Arith(c *Ctx) {
-	c.Doc("c02.arith-table", "arithmetic dispatch (the function taking *sqlparser.BinaryExpr): for each of the 11 BinaryExprOperator constants the arm computes the Go operation of the reference table (+ - * / on float64; DIV & | ^ << >> on int64 conversions of both operands, converted back; % as math.Mod) with the left operand originating from expr.Left and the right from expr.Right (order free only for commutative operators); a NULL operand yields (nil, nil) before any conversion")
+	c.Doc("c02.arith-table", "arithmetic dispatch (the function taking *sqlparser.BinaryExpr): for each of the 11 BinaryExprOperator constants the arm computes the Go operation of the reference table (+ - * / on float64; DIV as math.Trunc of the quotient of the doubles; & | ^ << >> on int64 conversions of both operands, converted back; % as math.Mod) with the left operand originating from expr.Left and the right from expr.Right (order free only for commutative operators); a NULL operand yields (nil, nil) before any conversion")
 	c.NotDecidedClause("C02: floating-point result values; column/path lookup (C09); generated expression trees (each node kind is decided separately)")
 	f := c.theFunc("arithmetic dispatch", "*sqlparser.BinaryExpr", "BinaryExpr")
 	if f == nil {
@@ -161,6 +161,17 @@ func matchArith(val *Term, ref arithRef, ep string) (bool, string) {
 			return false, "operands are swapped: computes R " + ref.op + " L"
 		}
 		return false, "operands are not (value of expr.Left, value of expr.Right): " + x.String() + " , " + y.String()
+	}
+	if ref.op == "div" {
+		// integer division of two doubles: the quotient of the doubles, truncated (9 DIV 2.5 = 3). Truncating the
+		// operands first gives 9/2 = 4, and a divisor below 1 becomes a division by zero
+		if a, ok := callArgs(val, "math.Trunc"); ok && len(a) == 1 && a[0].Op == "bin" && a[0].Name == "/" {
+			return orient(a[0].Args[0], a[0].Args[1], isL, isR)
+		}
+		if a, ok := callArgs(val, "math.Floor"); ok && len(a) == 1 {
+			return false, "DIV rounds towards minus infinity (math.Floor): -7 DIV 2 is -3, not -4"
+		}
+		return false, "DIV does not compute math.Trunc(L / R) on the doubles: " + val.String() + " (truncating the operands first makes 9 DIV 2.5 = 4 and 7.5 DIV 0.5 a division by zero)"
 	}
 	if ref.op == "%" {
 		if a, ok := callArgs(val, "math.Mod"); ok && len(a) == 2 {
@@ -758,17 +769,29 @@ func ruleC02Case(c *Ctx) {
 	c.Check(len(why) == 0, "c02.case", key, c.P.Pos(f.Pos()), "true condition => its value; none => ELSE or NULL", strings.Join(uniq(why), "; "))
 }
 
-func init() { register("C02", ruleC02ColumnNameComplete); register("C01", ruleC02ColumnNameComplete) }
+func init() {
+	register("C02", ruleC02ColumnNameComplete)
+	register("C01", ruleC02ColumnNameComplete)
+	register("C04", ruleC02ColumnNameComplete)
+	register("C09", ruleC02ColumnNameComplete)
+}
 
 // ruleC02ColumnNameComplete: every component of a dotted column reference reaches the selector.
 func ruleC02ColumnNameComplete(c *Ctx) {
-	c.Doc("c02.column-name-complete", "column references (BuildColumnName): the parser stores a.b.c as ColName{Qualifier: TableName{Qualifier: a, Name: b}, Name: c}; the builder reads all three name fields (Name, Qualifier.Name, Qualifier.Qualifier) and both of its string results derive from them — dropping the outermost component makes `n.x.y` read the unrelated column `x.y`")
-	f := c.P.Func(modPath, "BuildColumnName")
+	c.Doc("c02.column-name-complete", "column references (BuildColumnName, and the join's own reader of ON columns extractColumnsFromExpr): the parser stores a.b.c as ColName{Qualifier: TableName{Qualifier: a, Name: b}, Name: c}; the builder reads all three name fields (Name, Qualifier.Name, Qualifier.Qualifier) and both of its string results derive from them — dropping the outermost component makes `n.x.y` read the unrelated column `x.y`")
+	for _, fname := range []string{"BuildColumnName", "extractColumnsFromExpr"} {
+		c.columnNameComplete(fname)
+	}
+}
+
+// columnNameComplete: the named function reads every component of a (possibly three-part) column reference.
+func (c *Ctx) columnNameComplete(fname string) {
+	f := c.P.Func(modPath, fname)
 	if f == nil {
-		c.Unknown("c02.column-name-complete", "BuildColumnName", "-", "anchor lost")
+		c.Unknown("c02.column-name-complete", fname, "-", "anchor lost")
 		return
 	}
-	c.Fn("BuildColumnName")
+	c.Fn(fname)
 	read := map[string]bool{}
 	allInstrs(f, func(_ *ssa.BasicBlock, in ssa.Instruction) {
 		var base ssa.Value
@@ -815,7 +838,7 @@ func ruleC02ColumnNameComplete(c *Ctx) {
 			missing = append(missing, want)
 		}
 	}
-	c.Check(len(missing) == 0, "c02.column-name-complete", "BuildColumnName", c.P.Pos(f.Pos()), "Name, Qualifier.Name and Qualifier.Qualifier are read", "the column-name builder never reads "+strings.Join(missing, ", ")+": that component of a dotted reference is dropped and another column is read")
+	c.Check(len(missing) == 0, "c02.column-name-complete", fname, c.P.Pos(f.Pos()), "Name, Qualifier.Name and Qualifier.Qualifier are read", "the column-name builder never reads "+strings.Join(missing, ", ")+": that component of a dotted reference is dropped and another column is read")
 }
 
 func init() {
